@@ -55,6 +55,12 @@ fn panic_unbounded() {
 }
 
 pub fn exercise(e: &Event<'_>, dec: Decoder) {
+    // conversions and renderings every consumer uses
+    let b = e.borrow();
+    let o = e.clone().into_owned();
+    let _ = b == o;
+    let _ = format!("{:?}", e);
+    let _: &[u8] = e;
     match e {
         Event::Start(s) | Event::Empty(s) => start(s, dec),
         Event::End(x) => {
